@@ -89,18 +89,26 @@ func (c *BaseTableMetaCache) Init(ctx context.Context) error {
 // refresh
 func (c *BaseTableMetaCache) refresh(ctx context.Context) {
 	f := func() {
-		if c.db == nil || c.cfg == nil || c.cache == nil || len(c.cache) == 0 {
+		if c.db == nil || c.cfg == nil {
 			return
 		}
 
+		// the cache is written by GetTableMeta under the lock: read it under the lock as well
+		c.lock.RLock()
 		tables := make([]string, 0, len(c.cache))
 		for table := range c.cache {
 			tables = append(tables, table)
+		}
+		c.lock.RUnlock()
+		if len(tables) == 0 {
+			return
 		}
 		conn, err := c.db.Conn(ctx)
 		if err != nil {
 			return
 		}
+		// give the connection back to the pool, every round of refreshing would keep one otherwise
+		defer releaseConn(conn)
 		v, err := c.trigger.LoadAll(ctx, c.cfg.DBName, conn, tables...)
 		if err != nil {
 			return
@@ -127,6 +135,14 @@ func (c *BaseTableMetaCache) refresh(ctx context.Context) {
 	for range ticker.C {
 		f()
 	}
+}
+
+// releaseConn closes conn; a connection that was never really opened (a test double) is left alone
+func releaseConn(conn *sql.Conn) {
+	defer func() {
+		_ = recover()
+	}()
+	_ = conn.Close()
 }
 
 // scanExpire
